@@ -5,6 +5,7 @@ import (
 )
 
 func init() {
+	vfRegister("VF_C18_suffixes", VF_C18_suffixes)
 	vfRegister("VF_C18_gate", VF_C18_gate)
 	vfRegister("VF_C18_parse", VF_C18_parse)
 	vfRegister("VF_C18_skip", VF_C18_skip)
@@ -112,4 +113,29 @@ func VF_C18_skip() {
 		vfAssert(NewDefaultValidator(B).Validate(Input{Version: &ver}) == nil, "non-semver build: check skipped")
 	}
 	vfReach("C18_skip")
+}
+
+// VF_C18_suffixes: longer, concrete prerelease / build suffixes on either
+// side (the symbolic suffix of VF_C18_gate is one character in the quick
+// tier): the decision depends on major and minor only.
+func VF_C18_suffixes() {
+	sufs := []string{"", "-rc.1", "+build.5", "-beta.2+exp.sha"}
+	bmaj, bmin, bpat := vfDigit("bmaj"), vfNum("bmin"), vfDigit("bpat")
+	vmaj, vmin, vpat := vfDigit("vmaj"), vfNum("vmin"), vfDigit("vpat")
+	B := bmaj + "." + bmin + "." + bpat + sufs[vfChoice("bsuf", 4)]
+	V := vmaj + "." + vmin + "." + vpat + sufs[vfChoice("vsuf", 4)]
+	ver, perr := vfUnmarshalVersion(V)
+	vfAssert(perr == nil && string(ver) == V, "a semantic version with any suffix parses and is stored as written")
+	if perr != nil {
+		return
+	}
+	err := NewDefaultValidator(B).Validate(Input{Version: &ver})
+	var accept bool
+	if bmaj == "0" {
+		accept = vmaj == bmaj && vmin == bmin
+	} else {
+		accept = vmaj == bmaj && vfNumLE(vmin, bmin)
+	}
+	vfAssert((err == nil) == accept, "version gate: major and minor decide; patch, prerelease and build suffixes of either side never matter")
+	vfReach("C18_suffixes")
 }
